@@ -341,6 +341,19 @@ def subprocess_lib(I):
             self.attrs["returncode"] = I_.ctx.fresh_int("exit_code")
         return (OpaqueStr(), OpaqueStr())
 
+    def wait(I_, self, timeout=None):
+        # subprocess documentation: wait() "will deadlock when using stdout=PIPE or stderr=PIPE and the child process
+        # generates enough output to a pipe such that it blocks waiting for the OS pipe buffer to accept more data.
+        # Use Popen.communicate() when using pipes to avoid that" -- a precondition of the library method
+        I_.ctx.oblige(I_.obname("library_requires[Popen.wait() is not used on a child with stdout/stderr pipes: a child that fills a pipe never exits]",
+                                getattr(I_, "cur_node", None)),
+                      z3.BoolVal(not self.attrs.get("_g_pipes", True)), "pre")
+        if timeout is not None and I_.ctx.choose(2) == 1:
+            raise Raised(Obj(TimeoutExpired, {"args": ()}))
+        if self.attrs["returncode"] is None:
+            self.attrs["returncode"] = I_.ctx.fresh_int("exit_code")
+        return self.attrs["returncode"]
+
     def kill(I_, self):
         self.attrs["_g_kills"] = self.attrs["_g_kills"] + 1
 
@@ -351,14 +364,14 @@ def subprocess_lib(I):
     def send_signal(I_, self, sig=None):
         self.attrs["_g_terms"] = self.attrs.get("_g_terms", 0) + 1
 
-    Proc = Class("Popen", (), {"poll": meth(poll), "communicate": meth(communicate), "kill": meth(kill),
+    Proc = Class("Popen", (), {"poll": meth(poll), "communicate": meth(communicate), "kill": meth(kill), "wait": meth(wait),
                                "terminate": meth(terminate), "send_signal": meth(send_signal)}, None, "user")
 
     def popen(I_, a, k):
         I_.ghost["popen_cwd"] = I_.ghost.get("cwd")
         if I_.ctx.choose(2) == 1:
             raise Raised(I_.make_exc("FileNotFoundError", "no such executable"))
-        return Obj(Proc, {"returncode": None, "_g_kills": 0})
+        return Obj(Proc, {"returncode": None, "_g_kills": 0, "_g_pipes": k.get("stdout") == -1 or k.get("stderr") == -1})
     I.ghost["Proc"] = Proc
     I.ghost["SubprocessError"] = SubprocessError
     return Module("subprocess", {"PIPE": -1, "Popen": Native("Popen", popen),
